@@ -81,7 +81,7 @@ def run(ctx):
             kind = ctx.rng.choice(["seq", "bar"])
             cases.append((len(cases), kind, sc, ctx.rng.randint(-130, 130),
                           ctx.rng.choice(BAR_KEYS) if kind == "bar" else None))
-    if ctx.thorough and not ctx.replay:
+    if ctx.fixtures and not ctx.replay:
         from harness import fixtures
         for sc in fixtures.slices("quantised"):
             for i in (1, -3, 12, 30, -40, 87):
